@@ -10,7 +10,7 @@ RULE = ('cases: the C01 construction (molecule model x partition x rendering) in
         'with all of v\'s bonds into F and both copies get [!x]; the base edge counts one unit per shared pair. '
         'Several shared atoms per fragment, one atom shared by 3-4 fragments, chains of shared atoms, shared '
         'aromatic ring atoms, shared charged atoms, shared atoms that also carry ordinary descriptors; 8 %: one hub '
-        'carbon held by 3-4 fragments whose [!x] pairs form a random tree, base graph written from a random root. Oracle: the '
+        'carbon held by 3-4 fragments whose [!x] pairs form a random tree, base graph written from a random root and handed to from_graph with permuted keys / edge order, optionally with the hub hydrogen as an explicit atom forming its own coarse node; labels are letters, x1/x2.. or digits. Oracle: the '
         'fine graph is isomorphic to the model (= the disjoint description of the same partition, which is '
         'resolved as a metamorphic twin), the number of heavy atoms equals the number of fragment atoms minus the '
         'number of shared pairs, each merged atom lists both coarse nodes in fragid and appears in both coarse '
